@@ -7,6 +7,7 @@ import (
 	"fmt"
 	"math"
 	"os"
+	"path/filepath"
 
 	"github.com/prometheus/prometheus/model/labels"
 	"github.com/prometheus/prometheus/tsdb"
@@ -20,6 +21,7 @@ func main() {
 	r := flag.Int64("r", 1000, "")
 	spc := flag.Int("spc", 120, "")
 	iso := flag.Bool("isooff", false, "")
+	probe := flag.Bool("probe", false, "append a probe sample, close (snapshot if enabled), reopen and dump again")
 	flag.Parse()
 	dir := "/dev/shm/opendump"
 	os.RemoveAll(dir)
@@ -38,6 +40,42 @@ func main() {
 	}
 	q, _ := db.Querier(math.MinInt64, math.MaxInt64)
 	ss := q.Select(context.Background(), true, nil, labels.MustNewMatcher(labels.MatchRegexp, "__name__", ".+"))
+	for ss.Next() {
+		fmt.Print(ss.At().Labels(), ": ")
+		it := ss.At().Iterator(nil)
+		for vt := it.Next(); vt != chunkenc.ValNone; vt = it.Next() {
+			fmt.Print(it.AtT(), " ")
+		}
+		fmt.Println()
+	}
+	q.Close()
+	if !*probe {
+		return
+	}
+	app := db.Appender(context.Background())
+	if _, err := app.Append(0, labels.FromStrings("__name__", "probe"), db.Head().MaxTime()+1, 42); err != nil {
+		panic(err)
+	}
+	if err := app.Commit(); err != nil {
+		panic(err)
+	}
+	if err := db.Close(); err != nil {
+		panic(err)
+	}
+	fmt.Println("--- closed; files:")
+	filepath.Walk(dir, func(p string, fi os.FileInfo, err error) error {
+		if err == nil && !fi.IsDir() {
+			fmt.Println("   ", p[len(dir):], fi.Size())
+		}
+		return nil
+	})
+	db, err = tsdb.Open(dir, nil, nil, o, nil)
+	if err != nil {
+		panic(err)
+	}
+	fmt.Println("--- reopened")
+	q, _ = db.Querier(math.MinInt64, math.MaxInt64)
+	ss = q.Select(context.Background(), true, nil, labels.MustNewMatcher(labels.MatchRegexp, "__name__", ".+"))
 	for ss.Next() {
 		fmt.Print(ss.At().Labels(), ": ")
 		it := ss.At().Iterator(nil)
